@@ -177,7 +177,7 @@ def methods(ctx, world):
             if ok:
                 ctx.ob("A1.methods", inst, True, loc_of(m, site), sample=f"every return of {tgt.qual} calls anp.{name}")
             else:
-                ctx.fail("A1.methods", inst, f"method:{name}->{tgt.qual}", loc_of(m, site), f"{tgt.qual} does not return anp.{name}(...) on every path", f"x.{name}(...) on a traced array")
+                ctx.fail("A1.methods", inst, f"method:{name}->{tgt.qual}", loc_of(m, site), f"{tgt.qual} does not return anp.{name}(self, ..., **kwargs) on every path (a path drops the receiver, calls another function or loses the keyword options)", f"x.{name}(..., option=...) on a traced array, compared with the same call on an ndarray")
     ctx.floor("A1.methods instances", n, 28)
 
 
@@ -197,6 +197,10 @@ def _wrapper_reaches(world, ref, name):
             return False
         if not v.args or not isinstance(v.args[0], ast.Name) or v.args[0].id != node.args.args[0].arg:
             return False
+        # keyword options of the method call reach the function
+        if node.args.kwarg is not None:
+            if not any(k.arg is None and isinstance(k.value, ast.Name) and k.value.id == node.args.kwarg.arg for k in v.keywords):
+                return False
     return True
 
 
